@@ -421,7 +421,9 @@ func (api *API) mapDecodeStructFields(
 			continue
 		}
 
-		if sField.settings.inlined {
+		// like the encoder: an inlined field with an explicit key is written as a nested object under that key,
+		// only an inlined field without a key has its entries spliced into this object.
+		if sField.settings.inlined && sField.settings.ts.fieldKey == nil {
 			if err := api.mapDecode(ctx, m, fieldValue, sField.settings.ts, opts); err != nil {
 				return ierrors.Wrapf(err, "failed to deserialize inlined struct field %s", sField.name)
 			}
